@@ -9,6 +9,9 @@
          brightens) - failures go to `fails`;
      (C) compares the recorded bytes with ModelTL (exact transcription) - mismatches go to `drift`.
    A sweep record carries one entry per value of the swept control and is consumed point by point.
+   Executions started with "rsxx" run in the EA-MUS music mode: the volume model in force is the one the library reports
+   (the set-up is locked), and a NoteOn for a sounding key is a velocity update of that note (no new note, no key-on): the
+   re-levelling is judged with the velocity of the re-strike, in particular monotone along the velocity.
    Executions started with "kon" also record every KEY-ON of a chip channel ([2, chip channel, the four TL
    registers in force, MIDI channel and key of the note it was keyed for, candidates]) and the sounding notes
    after every call ("al"); time passes in "gen" calls.  Every key-on - NoteOn, the turn the automatic arpeggio
@@ -31,7 +34,7 @@ CntNames == <<"steps", "execs", "sweeps", "points", "touches", "bytes",
               "alg0", "alg1", "alg2", "alg3", "alg4", "alg5", "alg6", "alg7",
               "smod", "frb", "perc", "soft", "breduced", "multi", "noplay",
               "dmxvel_full", "dmxvol_full", "w9x_full", "sweeps128",
-              "gens", "kons", "kon_judged", "kon_skipped", "kon_shared", "kon_turns", "kon_zero", "kon_pairs", "kon_strict", "kon_drifted", "arp_execs">>
+              "rsxx_execs", "restrikes", "gens", "kons", "kon_judged", "kon_skipped", "kon_shared", "kon_turns", "kon_zero", "kon_pairs", "kon_strict", "kon_drifted", "arp_execs">>
 NC == Len(CntNames)
 Cnt0 == [i \in 1..NC |-> 0] \o <<>>
 \* d: a record with some of the counter names
@@ -42,7 +45,7 @@ CntRecord(k) == [nm \in { CntNames[i] : i \in 1..NC } |-> k[CHOOSE i \in 1..NC :
 Chan0 == [vol |-> 100, expr |-> 127, b |-> 127, soft |-> FALSE, prog |-> 0]
 Cells0 == [dv |-> {}, dc |-> {}, w9 |-> {}]
 St0 == [vm |-> 1, smod |-> FALSE, frb |-> FALSE, mv |-> 127, chans |-> [c \in 1..32 |-> Chan0] \o <<>>, notes |-> <<>>,
-        kon |-> FALSE, held |-> <<>>, lev |-> [c \in 1..24 |-> <<-1, -1>>] \o <<>>,
+        rsxx |-> FALSE, kon |-> FALSE, held |-> <<>>, lev |-> [c \in 1..24 |-> <<-1, -1>>] \o <<>>,
         cur |-> [c \in 1..24 |-> <<>>] \o <<>>, mem |-> <<>>, banks |-> <<>>, cells |-> Cells0]
 
 Init == l = 1 /\ pi = 0 /\ st = St0 /\ fails = <<>> /\ cnt = Cnt0 /\ drift = <<>> /\ exec = 0
@@ -68,7 +71,8 @@ ApplyCtl(s, pc) ==
     [] pc.o = "cc" /\ pc.n = 74 -> [s EXCEPT !.chans[pc.ch + 1].b = pc.v]
     [] pc.o = "cc" /\ pc.n = 67 -> [s EXCEPT !.chans[pc.ch + 1].soft = (pc.v >= 64)]
     [] pc.o = "mv" -> [s EXCEPT !.mv = pc.v]
-    [] pc.o = "set" /\ pc.s = "vm" -> [s EXCEPT !.vm = pc.v]
+    \* (RSXX locks the set-up: the setter stores only; the model in force is the one the library reports in the record)
+    [] pc.o = "set" /\ pc.s = "vm" -> [s EXCEPT !.vm = IF s.rsxx THEN pc.vmr ELSE pc.v]
     [] pc.o = "set" /\ pc.s = "smod" -> [s EXCEPT !.smod = (pc.v # 0)]
     [] pc.o = "set" /\ pc.s = "frb" -> [s EXCEPT !.frb = (pc.v # 0)]
     [] OTHER -> s
@@ -78,8 +82,13 @@ PatchOps(w) == SelectSeq(w, LAMBDA e : e[1] = 1)
 TlOps(w) == SelectSeq(w, LAMBDA e : e[1] = 0)
 (* A released percussion note (channel 9) lives on for its minimum life time (30 ms); the harness never
    advances time, so on channel 9 NoteOff and NoteOn with velocity 0 leave the note sounding. *)
+(* RSXX: a NoteOn for a key that is sounding on the channel is a velocity update of that note (Level!RestrikeVel: the
+   clamp with the instrument's offset, no soft-pedal reduction); the note keeps its chip channel and instrument. *)
+Restrike(s, pc) == s.rsxx /\ pc.o = "on" /\ pc.v > 0 /\ \E i \in DOMAIN s.notes : s.notes[i].ch = pc.ch /\ s.notes[i].k = pc.k
+RestrikeNotes(notes, pc) == [i \in DOMAIN notes |-> IF notes[i].ch = pc.ch /\ notes[i].k = pc.k THEN [notes[i] EXCEPT !.v = pc.v, !.soft = FALSE] ELSE notes[i]] \o <<>>
 ApplyNotes(s, pc, w) ==
-  CASE pc.o = "off" -> IF pc.ch % 16 = 9 THEN s ELSE [s EXCEPT !.notes = SelectSeq(@, LAMBDA n : ~(n.ch = pc.ch /\ n.k = pc.k))]
+  CASE Restrike(s, pc) -> [s EXCEPT !.notes = RestrikeNotes(s.notes, pc)]
+    [] pc.o = "off" -> IF pc.ch % 16 = 9 THEN s ELSE [s EXCEPT !.notes = SelectSeq(@, LAMBDA n : ~(n.ch = pc.ch /\ n.k = pc.k))]
     [] pc.o = "on" ->
          LET rest == SelectSeq(s.notes, LAMBDA n : ~(n.ch = pc.ch /\ n.k = pc.k))
              ins == InsOf(s, pc.ch, pc.k)
@@ -156,7 +165,7 @@ Flags(e) ==
         B2I(o.alg = 0), B2I(o.alg = 1), B2I(o.alg = 2), B2I(o.alg = 3), B2I(o.alg = 4), B2I(o.alg = 5), B2I(o.alg = 6), B2I(o.alg = 7),
         B2I(o.smod), B2I(o.frb), B2I(o.perc), B2I(o.soft), B2I(BrightReduced(o)), 0, 0,
         0, 0, 0, 0,
-        0, 0, 0, 0, 0, 0, 0, 0, 0, 0, 0 >>
+        0, 0, 0, 0, 0, 0, 0, 0, 0, 0, 0, 0, 0 >>
 RECURSIVE SumFlags(_, _, _)
 RECURSIVE SumSeqN(_, _, _)
 SumSeqN(t, i, a) == IF i > Len(t) THEN a ELSE SumSeqN(t, i + 1, a + t[i])
@@ -242,7 +251,7 @@ Prim(acc, pc, r, w, name, hasAl, al) ==
                           : lab \in evs[i].bad \ {"range"} } : i \in DOMAIN evs }
            \cup kp.F
       \* (C) refinement
-      created == pc.o = "on" /\ tn # <<>>
+      created == pc.o = "on" /\ tn # <<>> /\ ~Restrike(acc.s, pc)
       \* expected TL updates: one per note the call re-levels (+ the patch upload of a new note); while time passes, one per
       \* key-on (every turn of the arpeggio re-levels the note it keys: ChanTick of Level.tla); a pitch bend keys every note of
       \* the MIDI channel and re-levels those whose chip channel was levelled for another note (ChanRepitch, /repo 5cd89c0)
@@ -262,7 +271,7 @@ Prim(acc, pc, r, w, name, hasAl, al) ==
                  dc |-> s2.cells.dc \cup { DmxVolCell(evs[i].o) : i \in { j \in DOMAIN evs : evs[j].o.vm = 3 } },
                  w9 |-> s2.cells.w9 \cup { W9xCell(evs[i].o) : i \in { j \in DOMAIN evs : evs[j].o.vm = 5 } }]
       delta == SumFlags(evs, 1, [TupleZero EXCEPT ![5] = Len(evs), ![6] = 4 * Len(tls), ![19] = Len(evs), ![39] = B2I(Len(evs) > 1),
-                                                    ![40] = B2I(pc.o = "on" /\ pc.v > 0 /\ tn = <<>>)])
+                                                    ![40] = B2I(pc.o = "on" /\ pc.v > 0 /\ tn = <<>>), ![46] = B2I(Restrike(acc.s, pc))])
   IN [s |-> IF s2.kon THEN [s2 EXCEPT !.mem = mem1, !.cells = cells1, !.lev = LevNext(s2.lev, tn0, K)] ELSE [s2 EXCEPT !.mem = mem1, !.cells = cells1],
       f |-> IF Len(acc.f) >= MaxFails \/ F = {} THEN acc.f ELSE acc.f \o SeqOfSet(F),
       d |-> IF Len(acc.d) >= MaxDrift \/ D = {} THEN acc.d ELSE acc.d \o SeqOfSet(D),
@@ -276,12 +285,16 @@ SweepCall(ev, x) ==
     [] ev.ax = "bright" -> [o |-> "cc", ch |-> ev.ch, n |-> 74, v |-> x]
     [] ev.ax = "mv"     -> [o |-> "mv", v |-> x]
 StepInit(ev) ==
-  LET s0 == [St0 EXCEPT !.vm = ev.vm, !.smod = (ev.smod # 0), !.frb = (ev.frb # 0), !.banks = ev.banks,
+  LET rs == "rsxx" \in DOMAIN ev /\ ev.rsxx # 0
+      s0 == [St0 EXCEPT !.rsxx = rs, !.vm = IF rs THEN ev.vmr ELSE ev.vm, !.smod = (ev.smod # 0), !.frb = (ev.frb # 0), !.banks = ev.banks,
                         !.kon = ("kon" \in DOMAIN ev /\ ev.kon # 0)]
-      want == IF ev.vm = 0 THEN 1 ELSE ev.vm
+      want == IF rs THEN RsxxVolumeModel ELSE IF ev.vm = 0 THEN 1 ELSE ev.vm
+      \* the RSXX set-up as the library reports it: music mode 4, two chips, the channel volume still at its default
+      rsok == ~rs \/ (ev.mm = 4 /\ ev.nch = 2 /\ ev.cv = Chan0.vol)
   IN /\ st' = s0 /\ exec' = exec + 1 /\ fails' = fails
-     /\ drift' = IF ev.vmr # want /\ Len(drift) < MaxDrift THEN Append(drift, [l |-> l, x |-> exec + 1, e |-> "init", d |-> "volume model read back differs"]) ELSE drift
-     /\ cnt' = AddCnt(cnt, [execs |-> 1, arp_execs |-> B2I("arp" \in DOMAIN ev /\ ev.arp # 0)])
+     /\ drift' = IF (ev.vmr # want \/ ~rsok) /\ Len(drift) < MaxDrift
+                 THEN Append(drift, [l |-> l, x |-> exec + 1, e |-> "init", d |-> IF rsok THEN "volume model read back differs" ELSE "RSXX set-up differs"]) ELSE drift
+     /\ cnt' = AddCnt(cnt, [execs |-> 1, arp_execs |-> B2I("arp" \in DOMAIN ev /\ ev.arp # 0), rsxx_execs |-> B2I(rs)])
 StepOp(ev) ==
   LET acc0 == [s |-> st, f |-> fails, d |-> drift, k |-> cnt]
       acc1 == Prim(acc0, ev, ev.r, ev.w, ev.o, "al" \in DOMAIN ev, IF "al" \in DOMAIN ev THEN ev.al ELSE <<>>)
